@@ -100,7 +100,7 @@ chk("C10", "exploration",
     "A property of the compiled artefact: the specification contributes the secrecy policy, the acceptance rule and TLC-checked mechanism models (Leakage.tla, self-composition over toy secrets, "
     "kept counterexamples for the leaky variants). The verdict comes from dynamic analysis of the release binary: memcheck with the secret bytes marked undefined (a report is a candidate) and lock-step "
     "comparison of the instruction-address + data-address sequence between two markers (valgrind lackey) for seven secrets per operation (structured, algebraic boundary values, random), which is run on every candidate (a second pass uses 16 secrets) and unconditionally on a subset (thorough: all). "
-    "A taint report that no tested secret reproduces is reported too (the unchanged tree raises none). The AVX-512 IFMA build, which valgrind cannot execute, is single-stepped natively with ptrace between the same markers "
+    "A taint report that no tested secret reproduces stays a candidate in the evidence (a branch whose outcome is an invariant, like an always-true assert on secret-derived data, looks like that). The AVX-512 IFMA build, which valgrind cannot execute, is single-stepped natively with ptrace between the same markers "
     "and its instruction-address sequences are compared the same way.",
     "Finite secrets and operations; for the AVX-512 build only the instruction-address sequence is observed, not data addresses; nothing below the instruction/address level is observed.",
     "memcheck secret-taint + lackey / ptrace lock-step instruction and address traces; TLA+ policy and mechanism models", "DESIGN.md 5/C10, 14.2")
